@@ -3,6 +3,11 @@
 #pragma once
 #include "vf_harness.hpp"
 
+#ifndef VF_MODES
+#define VF_MODES 0xffffffffu
+#endif
+#define VF_ON(k) constexpr ((VF_MODES >> (k)) & 1u)
+
 namespace vf {
 
 struct CaseOut
@@ -39,6 +44,7 @@ void run_plain(const P& p, int gi, long idx, int mode, const std::string& input)
         switch (mode)
         {
         case 0: case 1: case 7: case 8: case 9:
+        if VF_ON(0)
         {
             string_buffer b{ std::string(input) };
             S.base = b.get_view(b.begin(), b.end()).data(); S.blen = input.size();
@@ -54,7 +60,9 @@ void run_plain(const P& p, int gi, long idx, int mode, const std::string& input)
             c.stream = ss.str();
             break;
         }
+        c.res = -2; break;
         case 2:
+        if VF_ON(2)
         {
             string_buffer b{ std::string(input) };
             S.base = b.get_view(b.begin(), b.end()).data(); S.blen = input.size();
@@ -64,7 +72,9 @@ void run_plain(const P& p, int gi, long idx, int mode, const std::string& input)
             }
             break;
         }
+        c.res = -2; break;
         case 3:
+        if VF_ON(3)
         {
             // exact-size heap copy so that an overread is visible to ASan
             std::unique_ptr<char[]> mem(new char[input.size() ? input.size() : 1]);
@@ -79,7 +89,9 @@ void run_plain(const P& p, int gi, long idx, int mode, const std::string& input)
             c.stream = ss.str();
             break;
         }
+        c.res = -2; break;
         case 4:
+        if VF_ON(4)
         {
             checked_buffer b{ std::string_view(input) };
             S.base = b.data(); S.blen = input.size();
@@ -93,7 +105,9 @@ void run_plain(const P& p, int gi, long idx, int mode, const std::string& input)
             c.extra = b.first_bad;
             break;
         }
+        c.res = -2; break;
         case 5: case 6:
+        if VF_ON(5)
         {
             string_buffer b{ std::string(input) };
             S.base = b.get_view(b.begin(), b.end()).data(); S.blen = input.size();
@@ -108,6 +122,7 @@ void run_plain(const P& p, int gi, long idx, int mode, const std::string& input)
             c.extra = "pieces=" + std::to_string(us.pieces);
             break;
         }
+        c.res = -2; break;
         default:
             c.res = -2;
         }
